@@ -305,7 +305,7 @@ func (r *HeaderKeyInFetcher) Fetch(req *bfe_basic.Request) (interface{}, error) 
 	}
 
 	for _, key := range r.keys {
-		if val := req.HttpRequest.Header.Get(key); val != "" {
+		if values := req.HttpRequest.Header.Values(key); len(values) > 0 {
 			return true, nil
 		}
 	}
@@ -623,7 +623,7 @@ func (r *ResHeaderKeyInFetcher) Fetch(req *bfe_basic.Request) (interface{}, erro
 	}
 
 	for _, key := range r.keys {
-		if val := req.HttpResponse.Header.Get(key); val != "" {
+		if values := req.HttpResponse.Header.Values(key); len(values) > 0 {
 			return true, nil
 		}
 	}
